@@ -21,6 +21,7 @@ import (
 
 	"github.com/icon-project/goloop/common"
 	"github.com/icon-project/goloop/common/db"
+	"github.com/icon-project/goloop/common/log"
 	"github.com/icon-project/goloop/service/state"
 	"verif/harness/hxlib"
 )
@@ -149,27 +150,75 @@ func observe(d state.AccountData, keys [][]byte) (o aobs, err error) {
 	return o, nil
 }
 
-func coqOptBytes(b []byte) string {
-	if b == nil {
-		return "None"
+// ---- the packed case format of Run_C14.p_case ----
+type enc struct{ b []byte }
+
+func (e *enc) byte(x int) { e.b = append(e.b, byte(x)) }
+func (e *enc) bool(x bool) {
+	if x {
+		e.byte(1)
+	} else {
+		e.byte(0)
 	}
-	return "(Some " + hxlib.CoqBytes(b) + ")"
+}
+func (e *enc) bytes(x []byte) {
+	if len(x) > 255 {
+		panic("byte string too long for the packed format")
+	}
+	e.byte(len(x))
+	e.b = append(e.b, x...)
+}
+func (e *enc) optBytes(x []byte) { // nil and empty are both the Go "no value"
+	if len(x) == 0 {
+		e.byte(0)
+		return
+	}
+	e.byte(1)
+	e.bytes(x)
+}
+func (e *enc) z(v *big.Int) {
+	if v == nil {
+		v = new(big.Int)
+	}
+	e.bool(v.Sign() < 0)
+	e.bytes(new(big.Int).Abs(v).Bytes())
+}
+func (e *enc) raw(x []byte) { e.b = append(e.b, x...) }
+
+func (o aobs) enc(e *enc) {
+	e.z(o.bal)
+	e.bool(o.isc)
+	e.optBytes(o.own)
+	e.byte(o.flg)
+	for _, v := range o.vals {
+		e.optBytes(v)
+	}
 }
 
-func (o aobs) coq() string {
-	var vs []string
-	for _, v := range o.vals {
-		if len(v) == 0 {
-			vs = append(vs, "None")
-		} else {
-			vs = append(vs, coqOptBytes(v))
+// (pw n (W8 w1 .. w8 (W8 .. WE)))%uint63 — see coq/run/Pack_Bytes.v
+func coqPacked(b []byte) string {
+	var words []uint64
+	for i := 0; i < len(b); i += 7 {
+		j := i + 7
+		if j > len(b) {
+			j = len(b)
 		}
+		var w uint64
+		for _, x := range b[i:j] {
+			w = w<<8 | uint64(x)
+		}
+		words = append(words, w)
 	}
-	bal := "0"
-	if o.bal != nil {
-		bal = o.bal.String()
+	for len(words)%8 != 0 {
+		words = append(words, 0)
 	}
-	return fmt.Sprintf("(AO %s %s %s %d %s)", hxlib.CoqZ(bal), hxlib.CoqBool(o.isc), coqOptBytes(o.own), o.flg, hxlib.CoqList(vs))
+	var sb strings.Builder
+	fmt.Fprintf(&sb, "(CPacked (pw %d ", len(b))
+	for i := 0; i < len(words); i += 8 {
+		fmt.Fprintf(&sb, "(W8 %d %d %d %d %d %d %d %d ", words[i], words[i+1], words[i+2], words[i+3], words[i+4], words[i+5], words[i+6], words[i+7])
+	}
+	sb.WriteString("WE" + strings.Repeat(")", len(words)/8) + "))%uint63")
+	return sb.String()
 }
 
 // does the observation show exactly the reference account?
@@ -229,7 +278,17 @@ type runner struct {
 	refs        []lworld
 	msg         string
 	st          stats
-	terms       []string
+	ops         enc // encoded operations with their observations
+	nops        int
+}
+
+// emit one operation: tag, then its fields
+func (r *runner) op(tag int, f func(e *enc)) {
+	r.ops.byte(tag)
+	if f != nil {
+		f(&r.ops)
+	}
+	r.nops++
 }
 
 func (r *runner) fail(i int, o op, f string, a ...interface{}) {
@@ -273,13 +332,13 @@ func (r *runner) class(i int, o op, h []byte, w lworld) int {
 }
 
 // observe snapshot j completely, compare with its reference; returns the Coq list
-func (r *runner) obsSnap(i int, o op, j int) string {
-	var l []string
+func (r *runner) obsSnap(i int, o op, j int) []byte {
+	var l enc
 	for a, id := range r.accts {
 		as := r.snaps[j].GetAccountSnapshot(id)
 		ref := r.refs[j].get(a)
 		if as == nil {
-			l = append(l, "None")
+			l.byte(0)
 			if !ref.empty() {
 				r.fail(i, o, "snapshot %d has no account %d, expected balance %v and %d values", j, a, ref.bal, len(ref.store))
 			}
@@ -288,10 +347,11 @@ func (r *runner) obsSnap(i int, o op, j int) string {
 		ob, err := observe(as, r.keys)
 		if err != nil {
 			r.fail(i, o, "snapshot %d account %d: GetValue failed: %v", j, a, err)
-			l = append(l, "None")
+			l.byte(0)
 			continue
 		}
-		l = append(l, "(Some "+ob.coq()+")")
+		l.byte(1)
+		ob.enc(&l)
 		if ref.empty() {
 			r.fail(i, o, "snapshot %d holds account %d although it is empty (balance %v): an empty account must be absent", j, a, ob.bal)
 		} else if d := ob.differs(ref, r.keys); d != "" {
@@ -301,10 +361,10 @@ func (r *runner) obsSnap(i int, o op, j int) string {
 	if h := hex.EncodeToString(r.snaps[j].StateHash()); h != r.hashes[j] {
 		r.fail(i, o, "snapshot %d: state hash changed from %s to %s", j, r.hashes[j], h)
 	}
-	return hxlib.CoqList(l)
+	return l.b
 }
 
-func (r *runner) addSnap(i int, o op, s state.WorldSnapshot, w lworld, fl bool) (int, string) {
+func (r *runner) addSnap(i int, o op, s state.WorldSnapshot, w lworld, fl bool) (int, []byte) {
 	r.snaps = append(r.snaps, s)
 	r.refs = append(r.refs, w)
 	r.flushed = append(r.flushed, fl)
@@ -335,12 +395,12 @@ func (r *runner) step(i int, o op) {
 	case "touch":
 		r.acct(o)
 		r.cur.get(o.A)
-		r.terms = append(r.terms, fmt.Sprintf("cTouch %d", o.A))
+		r.op(0, func(e *enc) { e.byte(o.A) })
 	case "bal":
 		v, _ := new(big.Int).SetString(o.V, 10)
 		r.acct(o).SetBalance(v)
 		r.cur.get(o.A).bal = v
-		r.terms = append(r.terms, fmt.Sprintf("cBal %d %s", o.A, hxlib.CoqZ(o.V)))
+		r.op(1, func(e *enc) { e.byte(o.A); e.z(v) })
 	case "set", "del":
 		k := r.keys[o.K]
 		l := r.cur.get(o.A)
@@ -365,13 +425,10 @@ func (r *runner) step(i int, o op) {
 		} else {
 			l.store[string(k)] = v
 		}
-		if len(old) == 0 {
-			old = nil
-		}
 		if o.O == "set" {
-			r.terms = append(r.terms, fmt.Sprintf("cSet %d %d %s %s", o.A, o.K, hxlib.CoqBytes(v), coqOptBytes(old)))
+			r.op(2, func(e *enc) { e.byte(o.A); e.byte(o.K); e.bytes(v); e.optBytes(old) })
 		} else {
-			r.terms = append(r.terms, fmt.Sprintf("cDel %d %d %s", o.A, o.K, coqOptBytes(old)))
+			r.op(3, func(e *enc) { e.byte(o.A); e.byte(o.K); e.optBytes(old) })
 		}
 	case "init":
 		l := r.cur.get(o.A)
@@ -383,7 +440,7 @@ func (r *runner) step(i int, o op) {
 			l.isc = true
 			l.own = o.W
 		}
-		r.terms = append(r.terms, fmt.Sprintf("cInit %d %s %s", o.A, hxlib.CoqBytes(owners[o.W].Bytes()), hxlib.CoqBool(res)))
+		r.op(4, func(e *enc) { e.byte(o.A); e.bytes(owners[o.W].Bytes()); e.bool(res) })
 	case "block":
 		r.acct(o).SetBlock(o.B)
 		l := r.cur.get(o.A)
@@ -391,7 +448,7 @@ func (r *runner) step(i int, o op) {
 		if o.B {
 			l.flg |= 2
 		}
-		r.terms = append(r.terms, fmt.Sprintf("cBlock %d %s", o.A, hxlib.CoqBool(o.B)))
+		r.op(5, func(e *enc) { e.byte(o.A); e.bool(o.B) })
 	case "disable":
 		r.acct(o).SetDisable(o.B)
 		l := r.cur.get(o.A)
@@ -401,7 +458,7 @@ func (r *runner) step(i int, o op) {
 				l.flg |= 1
 			}
 		}
-		r.terms = append(r.terms, fmt.Sprintf("cDisable %d %s", o.A, hxlib.CoqBool(o.B)))
+		r.op(6, func(e *enc) { e.byte(o.A); e.bool(o.B) })
 	case "live", "peek":
 		var d state.AccountData
 		if o.O == "live" {
@@ -410,7 +467,6 @@ func (r *runner) step(i int, o op) {
 			as := r.ws.GetAccountSnapshot(r.accts[o.A])
 			if as == nil {
 				r.fail(i, o, "WorldState.GetAccountSnapshot returned nil")
-				r.terms = append(r.terms, fmt.Sprintf("cPeek %d (AO (-1)%%Z false None 0 [])", o.A))
 				return
 			}
 			d = as
@@ -424,19 +480,22 @@ func (r *runner) step(i int, o op) {
 				r.fail(i, o, "account %d of the live state: %s", o.A, df)
 			}
 		}
-		name := map[string]string{"live": "cLive", "peek": "cPeek"}[o.O]
-		r.terms = append(r.terms, fmt.Sprintf("%s %d %s", name, o.A, ob.coq()))
+		if len(ob.vals) != len(r.keys) {
+			return
+		}
+		r.op(map[string]int{"live": 7, "peek": 8}[o.O], func(e *enc) { e.byte(o.A); ob.enc(e) })
 	case "obs":
 		if !okIdx() {
 			return
 		}
-		r.terms = append(r.terms, fmt.Sprintf("cObs %d%%nat %s", o.I, r.obsSnap(i, o, o.I)))
+		ob := r.obsSnap(i, o, o.I)
+		r.op(9, func(e *enc) { e.byte(o.I); e.raw(ob) })
 	case "ro":
 		if !okIdx() {
 			return
 		}
 		ro := state.NewReadOnlyWorldState(r.snaps[o.I])
-		var l []string
+		var l enc
 		for a, id := range r.accts {
 			as := ro.GetAccountState(id)
 			ob, err := observe(as, r.keys)
@@ -445,14 +504,17 @@ func (r *runner) step(i int, o op) {
 			} else if df := ob.differs(r.refs[o.I].get(a), r.keys); df != "" {
 				r.fail(i, o, "read-only state over snapshot %d, account %d: %s", o.I, a, df)
 			}
-			l = append(l, ob.coq())
+			if len(ob.vals) != len(r.keys) {
+				return
+			}
+			ob.enc(&l)
 		}
-		r.terms = append(r.terms, fmt.Sprintf("cRO %d%%nat %s", o.I, hxlib.CoqList(l)))
+		r.op(10, func(e *enc) { e.byte(o.I); e.raw(l.b) })
 	case "snap":
 		s := r.ws.GetSnapshot()
 		c, ob := r.addSnap(i, o, s, r.cur.clone(), false)
 		r.st.snaps++
-		r.terms = append(r.terms, fmt.Sprintf("cSnap %d %s", c, ob))
+		r.op(11, func(e *enc) { e.byte(c); e.raw(ob) })
 	case "reset":
 		if !okIdx() {
 			return
@@ -465,12 +527,12 @@ func (r *runner) step(i int, o op) {
 		}
 		r.cur = r.refs[o.I].clone()
 		r.st.resets++
-		r.terms = append(r.terms, fmt.Sprintf("cReset %d%%nat", o.I))
+		r.op(12, func(e *enc) { e.byte(o.I) })
 	case "clear":
 		r.ws.ClearCache()
 		r.handles = map[int]state.AccountState{}
 		r.st.clears++
-		r.terms = append(r.terms, "cClear")
+		r.op(13, nil)
 	case "flush":
 		if !okIdx() {
 			return
@@ -479,7 +541,7 @@ func (r *runner) step(i int, o op) {
 			r.fail(i, o, "Flush failed: %v", err)
 		}
 		r.flushed[o.I] = true
-		r.terms = append(r.terms, fmt.Sprintf("cFlush %d%%nat", o.I))
+		r.op(14, func(e *enc) { e.byte(o.I) })
 	case "reload", "fromsnap":
 		if !okIdx() {
 			return
@@ -490,7 +552,7 @@ func (r *runner) step(i int, o op) {
 				return
 			}
 			r.ws = state.NewWorldState(r.database, r.snaps[o.I].StateHash(), nil, nil, nil)
-			r.terms = append(r.terms, fmt.Sprintf("cReload %d%%nat", o.I))
+			r.op(15, func(e *enc) { e.byte(o.I) })
 		} else {
 			ws, err := state.WorldStateFromSnapshot(r.snaps[o.I])
 			if err != nil {
@@ -498,7 +560,7 @@ func (r *runner) step(i int, o op) {
 				return
 			}
 			r.ws = ws
-			r.terms = append(r.terms, fmt.Sprintf("cFromSnap %d%%nat", o.I))
+			r.op(16, func(e *enc) { e.byte(o.I) })
 		}
 		r.handles = map[int]state.AccountState{}
 		r.cur = r.refs[o.I].clone()
@@ -513,7 +575,7 @@ func (r *runner) step(i int, o op) {
 		}
 		s := state.NewWorldSnapshot(r.database, r.snaps[o.I].StateHash(), nil, nil, nil)
 		c, ob := r.addSnap(i, o, s, r.refs[o.I].clone(), true)
-		r.terms = append(r.terms, fmt.Sprintf("cLoad %d%%nat %d %s", o.I, c, ob))
+		r.op(17, func(e *enc) { e.byte(o.I); e.byte(c); e.raw(ob) })
 	default:
 		r.fail(i, o, "bad history: unknown operation")
 	}
@@ -530,10 +592,10 @@ func execHist(accts, keys [][]byte, ops []op, cl *classes) (r *runner) {
 	r = &runner{accts: accts, keys: keys, cl: cl, database: db.NewMapDB(), handles: map[int]state.AccountState{}, cur: lworld{}}
 	r.ws = state.NewWorldState(r.database, nil, nil, nil, nil)
 	for i, o := range ops {
-		n := len(r.terms)
+		n, k := len(r.ops.b), r.nops
 		if p := hxlib.Catch(func() { r.step(i, o) }); p != "" {
 			r.fail(i, o, "panic: %s", p)
-			r.terms = r.terms[:n]
+			r.ops.b, r.nops = r.ops.b[:n], k
 			return
 		}
 		if p := hxlib.Catch(func() { r.recheckAll(i, o) }); p != "" {
@@ -564,7 +626,8 @@ func runCase(c hcase) (coq string, msg string, st stats) {
 	r1 := execHist(accts, keys, c.H1, cl)
 	msg = r1.msg
 	st = r1.st
-	var t2 []string
+	var t2 enc
+	n2 := 0
 	if len(c.H2) > 0 {
 		r2 := execHist(accts, keys, c.H2, cl)
 		if msg == "" && r2.msg != "" {
@@ -578,16 +641,24 @@ func runCase(c hcase) (coq string, msg string, st stats) {
 				msg = fmt.Sprintf("the same logical content {%s} built in a different order has state hash %s instead of %s", ca, b, a)
 			}
 		}
-		t2 = r2.terms
+		t2, n2 = r2.ops, r2.nops
 	}
-	var al, kl []string
+	var e enc
+	e.byte(len(accts))
 	for _, a := range accts {
-		al = append(al, hxlib.CoqBytes(a))
+		e.bytes(a)
 	}
+	e.byte(len(keys))
 	for _, k := range keys {
-		kl = append(kl, hxlib.CoqBytes(k))
+		e.bytes(k)
 	}
-	coq = "(CHist " + hxlib.CoqList(al) + " " + hxlib.CoqList(kl) + "\n [" + strings.Join(r1.terms, "; ") + "]\n [" + strings.Join(t2, "; ") + "])"
+	e.byte(r1.nops >> 8)
+	e.byte(r1.nops & 255)
+	e.raw(r1.ops.b)
+	e.byte(n2 >> 8)
+	e.byte(n2 & 255)
+	e.raw(t2.b)
+	coq = coqPacked(e.b)
 	return
 }
 
@@ -934,6 +1005,7 @@ func replay(raw json.RawMessage) string {
 }
 
 func main() {
+	log.GlobalLogger().SetLevel(log.FatalLevel) // InitContractAccount on a contract logs at debug level; lookups on a broken trie log errors
 	hxlib.Main(hxlib.Spec{
 		ID: "C14",
 		Rule: "pairs of histories on state.NewWorldState over db.NewMapDB(), 3-5 accounts x 2-3 storage keys: SetBalance (0, small, 2^70, 2^128), SetValue/DeleteValue (incl. empty value = delete), " +
@@ -943,7 +1015,7 @@ func main() {
 			"first one's last snapshot from scratch in a shuffled order with traceless noise. Direct oracle: a Go reference of plain maps (snapshots = deep copies, Reset = assignment); " +
 			"same logical content <=> same state hash within a case; an account is nil in a snapshot exactly when it is empty. " +
 			"non-trivial = a Reset that changed the content, a ClearCache or reload, an account present in one snapshot and absent (emptied) in the next, at least 3 snapshots; distinct = distinct Coq case term",
-		Shard: 40,
+		Shard: 140,
 		Gen:   gen, Replay: replay,
 	})
 }
